@@ -3,6 +3,7 @@ import Pyxv.Proofs.XmlRoundTrip
 import Pyxv.Proofs.C01Decls
 import Pyxv.Proofs.C02
 import Pyxv.Proofs.C04
+import Pyxv.Proofs.C03Text
 /-!
 # Theorems about the end-to-end composition `Pyxv.Convert.convert`
 
@@ -1140,6 +1141,169 @@ theorem convert_c02_partial (wb : Workbook) (doc : Node) (h : convertDoc wb = .o
 
 #print axioms convert_c02_partial
 
+
+/-! ## 6b. C03: every `${name}` of a bind value resolves to the named element -/
+
+/-- a successful substitution answered every occurrence the regex finds -/
+theorem substRefs_refs_ok (repl : Bool → Str → Option Str) : ∀ (fuel : Nat) (s out : Str),
+    Refs.substRefs repl fuel s = some out → ∀ r ∈ Refs.findRefs fuel s, (repl r.1 r.2).isSome = true
+  | 0, _, _, h => by simp [Refs.substRefs] at h
+  | fuel + 1, [], _, _ => by simp [Refs.findRefs]
+  | fuel + 1, c :: r, out, h => by
+    rw [Refs.substRefs] at h
+    rw [Refs.findRefs]
+    split at h
+    · rename_i hc
+      simp only [hc, and_self, ↓reduceIte]
+      split at h
+      · rename_i ls name rest hm
+        try simp only [hm]
+        cases hr : repl ls name with
+        | none => simp [hr] at h
+        | some v =>
+          cases hs : Refs.substRefs repl fuel rest with
+          | none => simp [hr, hs] at h
+          | some o =>
+            intro x hx
+            simp only [List.mem_cons] at hx
+            rcases hx with rfl | hx
+            · simp [hr]
+            · exact substRefs_refs_ok repl fuel rest o hs x hx
+      · rename_i hm
+        try simp only [hm]
+        cases hs : Refs.substRefs repl fuel r with
+        | none => simp [hs] at h
+        | some o => exact substRefs_refs_ok repl fuel r o hs
+    · rename_i hc
+      simp only [hc, ↓reduceIte]
+      cases hs : Refs.substRefs repl fuel r with
+      | none => simp [hs] at h
+      | some o => exact substRefs_refs_ok repl fuel r o hs
+
+/-- the references of the text `s`, read from the element `ctx`, all reach the element they name -/
+def HolesResolve (els : List Refs.Chain) (ctx : Refs.Chain) (s : Str) : Prop :=
+  ∀ r ∈ Refs.findRefs (s.length + 1) s, ∃ cur e t,
+    Refs.refFor els (some ctx) r.2 { lastSaved := r.1 } = .ok cur e ∧
+    els.filter (Refs.named r.2) = [t] ∧ Refs.resolve ctx.path e = some t.path
+
+theorem insertXpaths_holes (els : List Refs.Chain) (hv : ∀ t ∈ els, Refs.GoodNames t.path)
+    (ctx : Refs.Chain) (hc : Refs.GoodNames ctx.path) (s out : Str)
+    (h : Refs.insertXpaths els (some ctx) {} s = some out) : HolesResolve els ctx s := by
+  intro r hr
+  have hok := substRefs_refs_ok _ _ _ _ h r hr
+  cases hf : Refs.refFor els (some ctx) r.2 { lastSaved := r.1 } with
+  | ok cur e =>
+    obtain ⟨t, ht, hres⟩ := Refs.ref_resolves els hv ctx hc r.2 _ cur e hf
+    exact ⟨cur, e, t, rfl, ht, hres⟩
+  | unknown n => simp [hf, Refs.Out.text] at hok
+  | ambiguous n => simp [hf, Refs.Out.text] at hok
+
+theorem attrsOfR_holes (els : List Refs.Chain) (hv : ∀ t ∈ els, Refs.GoodNames t.path)
+    (ctx : Refs.Chain) (hc : Refs.GoodNames ctx.path) (path : Str) : ∀ (b : Binds.BindDict) (a : List (Str × Str)),
+    attrsOfR els ctx path b = some a →
+    ∀ kv ∈ b, ∃ s s', Binds.convVal path kv.1 kv.2 = some s ∧ Refs.insertXpaths els (some ctx) {} s = some s' ∧
+      (kv.1, s') ∈ a ∧ HolesResolve els ctx s
+  | [], _, _ => by simp
+  | (k, v) :: rest, a, h => by
+    simp only [attrsOfR] at h
+    split at h
+    · simp at h
+    · rename_i s hs
+      split at h
+      · rename_i s' r hi hr
+        simp only [Option.some.injEq] at h; subst h
+        intro kv hkv
+        simp only [List.mem_cons] at hkv
+        rcases hkv with rfl | hkv
+        · exact ⟨s, s', hs, hi, by simp, insertXpaths_holes els hv ctx hc s s' hi⟩
+        · obtain ⟨s1, s1', h1, h2, h3, h4⟩ := attrsOfR_holes els hv ctx hc path rest r hr kv hkv
+          exact ⟨s1, s1', h1, h2, by simp [h3], h4⟩
+      · simp at h
+
+/-- **C03 for a bind of the conversion.**  When the bind of the element `ctx` is produced (`bindAttrs … = some a`),
+    every entry of its bind dict reached `a` with its references substituted by `Refs.refFor`, and every `${name}`
+    of the entry — absolute or relative, any depth of groups and repeats — evaluated from `ctx`'s node reaches the
+    one element called `name`.  From `C03.ref_resolves`. -/
+theorem bind_holes_resolve (els : List Refs.Chain) (hv : ∀ t ∈ els, Refs.GoodNames t.path)
+    (ctx : Refs.Chain) (hc : Refs.GoodNames ctx.path) (q : Binds.Q) (a : List (Str × Str))
+    (h : bindAttrs els ctx q = some a) :
+    ∃ b, bindDict q = some b ∧ ∀ kv ∈ b, ∃ s s', Binds.convVal ctx.xpath kv.1 kv.2 = some s ∧
+      Refs.insertXpaths els (some ctx) {} s = some s' ∧ (kv.1, s') ∈ a ∧ HolesResolve els ctx s := by
+  unfold bindAttrs at h
+  cases hb : bindDict q with
+  | none => simp [hb] at h
+  | some b =>
+    simp only [hb, Option.bind_some] at h
+    split at h
+    · rename_i a' ha
+      split at h
+      · simp only [Option.some.injEq] at h; subst h
+        exact ⟨b, rfl, attrsOfR_holes els hv ctx hc _ b a' ha⟩
+      · simp at h
+    · simp at h
+
+mutual
+/-- the (chain, bind source) of every element of the walk that has a bind -/
+def bindElems (pc : Refs.Chain) : DItem → List (Refs.Chain × Binds.Q)
+  | .q d p => if d.bind then [(pc ++ [(d.name, .q)], p.bq)] else []
+  | .sec ct n b p ks => (if b then [(pc ++ [(n, kindOf ct)], p.bq)] else []) ++ bindElemsL (pc ++ [(n, kindOf ct)]) ks
+def bindElemsL (pc : Refs.Chain) : List DItem → List (Refs.Chain × Binds.Q)
+  | [] => []
+  | k :: ks => bindElems pc k ++ bindElemsL pc ks
+end
+
+mutual
+theorem bindsOk_elems (els : List Refs.Chain) : ∀ (pc : Refs.Chain) (d : DItem), bindsOk els pc d = true →
+    ∀ cq ∈ bindElems pc d, (bindAttrs els cq.1 cq.2).isSome = true
+  | pc, .q d p, h => by
+    simp only [bindsOk, Bool.or_eq_true, Bool.not_eq_true'] at h
+    simp only [bindElems]
+    cases hb : d.bind with
+    | false => simp
+    | true => simpa using h.resolve_left (by simp [hb])
+  | pc, .sec ct n b p ks, h => by
+    simp only [bindsOk, Bool.and_eq_true, Bool.or_eq_true, Bool.not_eq_true'] at h
+    simp only [bindElems, List.mem_append]
+    intro cq hcq
+    rcases hcq with hcq | hcq
+    · cases hb : b with
+      | false => simp [hb] at hcq
+      | true =>
+        simp only [hb, if_true, List.mem_singleton] at hcq; subst hcq
+        exact h.1.resolve_left (by simp [hb])
+    · exact bindsOkL_elems els _ ks h.2 cq hcq
+theorem bindsOkL_elems (els : List Refs.Chain) : ∀ (pc : Refs.Chain) (ds : List DItem), bindsOkL els pc ds = true →
+    ∀ cq ∈ bindElemsL pc ds, (bindAttrs els cq.1 cq.2).isSome = true
+  | _, [], _ => by simp [bindElemsL]
+  | pc, k :: ks, h => by
+    simp only [bindsOkL, Bool.and_eq_true] at h
+    simp only [bindElemsL, List.mem_append]
+    intro cq hcq
+    rcases hcq with hcq | hcq
+    · exact bindsOk_elems els pc k h.1 cq hcq
+    · exact bindsOkL_elems els pc ks h.2 cq hcq
+end
+
+/-- **C03 for the whole conversion** (`_partial`: stated on the bind values of the run, with the `GoodNames`
+    facts of `Survey.validate` — names non-empty and without `/` — as hypotheses on the element list instead of derived
+    from `is_xml_tag`; label / hint outputs, dynamic defaults and `jr:count` go through the same `Refs.insertXpaths`
+    but are not covered by this statement).  In a successful conversion every bind of every element (generated
+    `_count` / `_other` / `instanceID` included) carries its dict entries with all references resolved by
+    `Refs.refFor`, and each reference, evaluated from the element's node, reaches the element it names. -/
+theorem convert_c03_partial (wb : Workbook) (doc : Node) (h : convertDoc wb = .ok doc) :
+    ∃ (els : List Refs.Chain) (root : Str) (dall : List DItem), els = elsOf root dall ∧
+      ((∀ t ∈ els, Refs.GoodNames t.path) → ∀ cq ∈ bindElemsL [(root, .group)] dall, Refs.GoodNames cq.1.path →
+        ∃ a b, bindAttrs els cq.1 cq.2 = some a ∧ bindDict cq.2 = some b ∧
+          ∀ kv ∈ b, ∃ s s', Binds.convVal cq.1.xpath kv.1 kv.2 = some s ∧
+            Refs.insertXpaths els (some cq.1) {} s = some s' ∧ (kv.1, s') ∈ a ∧ HolesResolve els cq.1 s) := by
+  obtain ⟨f, lists, rows, drows, o, ditems, T⟩ := convertDoc_trace wb doc h
+  refine ⟨_, f.name, dWithMeta f.name rows ditems, rfl, ?_⟩
+  intro hv cq hcq hc
+  obtain ⟨a, ha⟩ := Option.isSome_iff_exists.mp (bindsOkL_elems _ _ _ T.hbinds cq hcq)
+  obtain ⟨b, hb, hall⟩ := bind_holes_resolve _ hv cq.1 hc cq.2 a ha
+  exact ⟨a, b, ha, hb, hall⟩
+
+#print axioms convert_c03_partial
 
 /-! ## 7. Non-vacuity: a concrete workbook, its text, and the theorems applied to it -/
 
